@@ -328,3 +328,49 @@ def ifg_pad(how):
     x = ifg.x
     i, j = idx(H, 'i'), idx(W, 'j')
     check('x-regenerated', And(shape_is(x, H, W), elem(x, i, j) == (j - W // 2) * dx))
+
+
+@harness('C04', 'autocrop/centroid-at-window-origin', fuc=['prysm.psf.autocrop', 'prysm.psf.centroid'])
+def autocrop_origin():
+    """autocrop(data, px) of a point source returns the px-wide window (the documented full width) whose origin sample px//2 is
+    the source: shape (px, px) and the source amplitude at (px//2, px//2), for every window that fits inside the array."""
+    h, w = Int('h', 1), Int('w', 1)
+    p, q = idx(h, 'p'), idx(w, 'q')
+    px = Int('px', 1)
+    assume(And(p - px // 2 >= 0, p - px // 2 + px <= h, q - px // 2 >= 0, q - px // 2 + px <= w))
+    amp = Real('amp', pos=True)
+    d = Delta((h, w), (p, q), amp)
+    out = call('prysm.psf.autocrop', d, px)
+    check('full-width-window', shape_is(out, px, px))
+    check('source-on-the-window-origin-sample', approx(elem(out, px // 2, px // 2), amp, 1e-12))
+    i, j = idx(px, 'i'), idx(px, 'j')
+    check('window-is-the-data-around-the-source', approx(elem(out, i, j), elem(d, p - px // 2 + i, q - px // 2 + j), 1e-12))
+
+
+@harness('C04', 'focus|unfocus/origin-sample-is-the-transform-origin', variants=['focus', 'unfocus'],
+         fuc=['prysm.propagation.focus', 'prysm.propagation.unfocus'])
+def fft_route_origin(which):
+    """MODULAR on the library transform (fft2 / ifft2 replaced by an arbitrary array, their argument recorded; the replay uses the
+    real transform): for every shape of either parity, focus and unfocus (Q = 1) hand the transform the field rolled so that its
+    origin sample (m//2, n//2) sits at index (0, 0) - the phase origin of a DFT - and store DFT bin k at index k + n//2 of the
+    result: a point source on the origin sample transforms to a field without tilt, and the zero-frequency / on-axis term lands on
+    the origin sample of the output, in both directions."""
+    from contracts.modfft import havoc_fft
+    m, n = Int('m', 1), Int('n', 1)
+    f = Array('f', (m, n), 'c')
+    i, j = idx(m, 'i'), idx(n, 'j')
+    if MODE == 'symbolic':
+        with havoc_fft((m, n)) as hv:
+            out = call('prysm.propagation.' + which, f, 1)
+        arg = hv.fwd_arg if which == 'focus' else hv.inv_arg
+        T = hv.F if which == 'focus' else hv.H
+        check('one-transform-of-the-right-kind', (hv.fwd_arg is None) != (hv.inv_arg is None) and arg is not None)
+    else:
+        import numpy as np
+        out = call('prysm.propagation.' + which, f, 1)
+        arg = np.fft.ifftshift(f)
+        T = (np.fft.fft2 if which == 'focus' else np.fft.ifft2)(arg, norm='ortho')
+    check('shape', shape_is(out, m, n))
+    check('origin-sample-rolled-to-index-0', approx(elem(arg, i, j), elem(f, (i + m // 2) % m, (j + n // 2) % n), 1e-9))
+    check('bin-k-at-index-k+n//2', approx(elem(out, i, j), elem(T, (i - m // 2) % m, (j - n // 2) % n), 1e-9))
+    check('on-axis-term-at-the-origin-sample', approx(elem(out, m // 2, n // 2), elem(T, 0, 0), 1e-9))
